@@ -5,7 +5,7 @@ from oracle_util import *  # noqa
 from protocol import from_real, pm
 
 ID = "C17"
-LEAN_MODULE = ["SCoda.Props.C17", "SCoda.Props.Notes"]
+LEAN_MODULE = ["SCoda.Props.C17", "SCoda.Props.Notes", "SCoda.Props.NotesB"]
 LEVEL = "proof"
 CLAUSES = [
     ("reflexive (every list, every flag set) and symmetric", ["SCoda.C17.refl", "SCoda.C17.symm"]),
@@ -20,6 +20,22 @@ CLAUSES = [
     ("general sensitivity: equals = true implies the same notes (channel, pitch, onset, end, velocity) and the same time/key signatures at the same ticks "
      "for arbitrary well-formed sequences — so any such difference makes equals fail; the pairings are the notes",
      ["SCoda.Notes.equals_sound", "SCoda.Notes.pairings_notes"]),
+    ("ALL 16 flag settings, both directions (audit A16): content = notes from the independent notesOf of the sorted list and the sorted signature messages, each flag "
+     "erasing exactly its attribute; equals = true implies equal content (as multisets) for arbitrary well-formed sequences; equal content (canonical order) implies "
+     "equals = true (with the channel flag: for single-channel sequences); the iff holds when no two different signatures of a kind share a channel and tick; the "
+     "unrestricted iff is refuted twice, replayed: two different time signatures on one tick in swapped order compare unequal (the one in force differs), and with "
+     "ignore_channel two-channel sequences whose contents agree after erasing the channel compare unequal on a cross-channel onset tie (the property only claims "
+     "single-channel relabelling)",
+     ["SCoda.NotesB.equals_sound_all", "SCoda.NotesB.equals_complete", "SCoda.NotesB.equals_iff_content_partial", "SCoda.NotesB.equals_false_of_content",
+      "SCoda.NotesB.equals_iff_content_statement_false", "SCoda.NotesB.equals_iff_content_channel_statement_false"]),
+    ("through either representation and in any insertion order: equals (toAbs (toRel a)) a = true in both argument orders for every legal absolute view (not a "
+     "permutation: the INTERNAL cap is dropped and re-created); a relative sequence equals an absolute one with the same events; permutations compare equal whenever "
+     "compared messages that tie in the sort key agree on what equals compares (any number of control / program changes on one tick and channel allowed); the unrestricted "
+     "insertion-order statement is refuted on two different time signatures on one tick",
+     ["SCoda.NotesB.equals_rerepresented", "SCoda.NotesB.equals_of_same_events", "SCoda.NotesB.equals_of_perm_tie", "SCoda.NotesB.insertion_order_statement_false"]),
+    ("each of the velocity / time-signature / key-signature flags: sequences differing only in that attribute compare equal with the flag and unequal without it",
+     ["SCoda.NotesB.flag_velocity_only", "SCoda.NotesB.flag_velocity_strict", "SCoda.NotesB.flag_time_signature_only", "SCoda.NotesB.flag_time_signature_strict",
+      "SCoda.NotesB.flag_key_signature_only", "SCoda.NotesB.flag_key_signature_strict"]),
 ]
 RULE = ("base well-formed sequences (<=6 notes, signatures) paired with: themselves, shuffled insertion orders, the relative "
         "re-representation, and every single-attribute perturbation (pitch, onset, duration, velocity, channel relabel, "
